@@ -19,16 +19,16 @@ What is covered, and what is NOT:
       – norm 1:     |s| ≤ 2, l ≤ 12; and for ALL l ≥ |s| at m = ±l   (T9, T10)
       – closed form of every inner product for ALL integers as an explicit
         rational double sum (T8) — orthogonality in `l` for l > 12 is that sum
-        being zero, which is NOT proven in general here (see Props/C20c.lean
-        if present for the families m ≥ |s|).
+        being zero, which is NOT proven in this file: Props/C20c.lean (T18)
+        proves it for ALL integers by a different route.
   * the discrete Gram matrix on the code's grid is EXACTLY
       δ_{mm'} · (continuous value + θ-midpoint quadrature error)      (T11, T12)
     and the midpoint rule is not exact: ‖₀Y₀₀‖²_grid = (π/2M)/sin(π/2M) > 1,
     so `DiscreteOrthonormal` is false on the code's grid at every resolution (T14);
     `roundtrip_partial`'s hypothesis is reduced to a statement on the θ rule alone
     and the round-trip defect is given in closed form (T13).
-    NOT proven: a bound O(1/N²) on `thetaDefect` (only its closed form for the
-    individual sine modes, T15), hence no convergence rate of `Psi4_lm`.
+    NOT proven in this file: a bound O(1/N²) on `thetaDefect` (only its closed form
+    for the individual sine modes, T15) — see Props/C20c.lean (T20, T21).
   * spin 0 = (−1)^m × standard Y_lm for ALL l (T16; Props/C20.lean had l ≤ 4).
   * linear interpolation (T17): exact at nodes, exact on trilinear fields
     (everywhere), convex inside the grid.  Other `method`s of scipy are not modelled.
